@@ -251,7 +251,7 @@ def run(tier, seed):
     fails = 0
     with Poison() as poison:
         # (1) every tool / aggregation of the calculus with suspending sources (pull and aclose) and callables
-        per = 8 * common.scale(rep) if tier == "quick" else 80
+        per = 8 * common.scale(rep) if tier == "quick" else 300
         for name in ITER_TOOLS + AGG_TOOLS:
             for _ in range(per):
                 c = draw_case(rng, name, tier)
